@@ -77,7 +77,7 @@ func VerifC02NextValidators() {
 	e := newVEnv(nv)
 	m := vh.Int64("M")
 	vh.Assume(m >= 1)
-	vh.Assume(m <= int64(nv)+1)
+	vh.Assume(m <= 1<<62)
 	e.k.SetParams(e.ctx, vParams(m, 600))
 	vStakingContract(e.st)
 	// known finding F1 (see known_findings.json): two active validators with equal
